@@ -83,6 +83,9 @@ func recordingFn(level, name string) valid.CommonValidFn {
 // ruleTexts lists every rule string of a call.
 func (c *Call) ruleTexts() []string {
 	var out []string
+	if c.H != nil {
+		return nil
+	}
 	if c.V != nil {
 		return []string{c.V.rules()}
 	}
@@ -112,6 +115,7 @@ func tokensOf(list *[]retained, rule string) {
 }
 
 type c12Facts struct {
+	helpers int
 	followUp  bool // a call with RM / per-call fn / failing result directly followed by a call on the same type without them
 	failing   int
 	withRM    int
@@ -123,6 +127,10 @@ type c12Facts struct {
 func (c *C12Case) facts(refs []outcome) c12Facts {
 	var f c12Facts
 	for i, call := range c.Calls {
+		if call.H != nil {
+			f.helpers++
+			continue
+		}
 		if !refs[i].Nil {
 			f.failing++
 		}
@@ -267,6 +275,9 @@ func checkC12(c *C12Case) (string, c12Facts) {
 
 // c12Variant derives a follow-up call on the same type from a base call.
 func c12Variant(t *rapid.T, base *Call, regen func() (desc.V, bool)) *Call {
+	if base.H != nil {
+		return &Call{H: &HelperCall{Name: base.H.Name, Arg: genString(t, "harg", true)}}
+	}
 	if base.V != nil {
 		cp := *base.V
 		switch rapid.IntRange(0, 5).Draw(t, "svariant") {
@@ -334,7 +345,11 @@ func genC12Case(t *rapid.T) *C12Case {
 	var bases []base
 	nb := rapid.IntRange(1, 4).Draw(t, "nBases")
 	for i := 0; i < nb; i++ {
-		switch rapid.IntRange(0, 6).Draw(t, "baseKind") {
+		switch rapid.IntRange(0, 7).Draw(t, "baseKind") {
+		case 7:
+			// an exported helper (they draw from the same buffer pool as the validators), incl. the error path of the JSON dumper
+			h := &HelperCall{Name: rapid.SampledFrom([]string{"dump", "dumpjson", "dumpjson-bad", "dumpjson-bad", "explain", "genkv", "split", "timefmt", "strescape"}).Draw(t, "helper"), Arg: genString(t, "harg", true)}
+			bases = append(bases, base{call: &Call{H: h}, regen: func() (desc.V, bool) { return desc.V{}, false }})
 		case 5, 6:
 			// one rule of the catalogue used several times with different arguments
 			// (separators, option lists, patterns, bounds) and values: state kept inside a
@@ -427,6 +442,7 @@ func TestC12(t *testing.T) {
 		ev.ClassN("calls-with-rule-map", int64(facts.withRM))
 		ev.ClassN("calls-with-per-call-functions", int64(facts.withFns))
 		ev.ClassN("scalar-calls", int64(facts.scalar))
+		ev.ClassN("helper-calls", int64(facts.helpers))
 		ev.ClassN("calls", int64(len(c.Calls)))
 		ev.ClassN("filler-calls", int64(c.Filler))
 		b, _ := json.Marshal(c)
@@ -449,6 +465,10 @@ func c12Sample(c *C12Case) interface{} {
 	}
 	var steps []step
 	for _, call := range c.Calls {
+		if call.H != nil {
+			steps = append(steps, step{Kind: "helper " + call.H.Name})
+			continue
+		}
 		if call.V != nil {
 			steps = append(steps, step{Kind: call.V.Carrier, Type: call.V.T.K, Rules: call.V.Rules})
 			continue
